@@ -158,3 +158,62 @@ func TestSlowDeliveries(t *testing.T) {
 	sub := vf.Cur().Sub("slow-deliveries", fmt.Sprintf(rule, "targeted: every delivery takes longer than group_interval (2-5 s, below the 10 s minimum pipeline time-out), so flush ticks are older than the log entry of the previous delivery; in half of the cases a reload stops the dispatcher in the middle of the first delivery, which still completes successfully; the unchanged group must not be notified again"), 8)
 	sysrun.Run(t, "C04", sub, sysrun.Family{Name: "slowd", Quick: 30, Thorough: 1500, NonTrivial: func(c map[string]int64) bool { return c["notifications_judged"] >= 1 }, Gen: slowDeliveries}, checkers(0))
 }
+
+// hangingSibling: a receiver with two integrations, one of which hangs for the whole run (every flush
+// lasts until the pipeline time-out). The healthy one must go on receiving its repeats on time: a
+// flush is due every group_interval, not every group_interval plus the time the previous flush took.
+func hangingSibling(r *rand.Rand) *scen.Scenario {
+	gw := time.Second
+	gi := gen.Pick(r, []time.Duration{20 * time.Second, 30 * time.Second, time.Minute})
+	ri := 2*gi + gi/2
+	gb := []string{"alertname"}
+	cfg := &scen.Config{ResolveTimeout: 5 * time.Minute,
+		Route:     &model.RouteSpec{Receiver: "r0", GroupBy: &gb, GroupWait: &gw, GroupInterval: &gi, RepeatInterval: &ri},
+		Receivers: []scen.Receiver{{Name: "r0", Integs: []scen.Integ{{SendResolved: true}, {SendResolved: true}}}}}
+	s := &scen.Scenario{Config: cfg, Duration: 16 * gi, Retention: 120 * time.Hour, MaintenanceInterval: 15 * time.Minute}
+	s.Faults = append(s.Faults, scen.Fault{Receiver: "r0", Idx: 1, From: 0, To: s.Duration, Kind: gen.Pick(r, []string{"hang", "recoverable"})})
+	end := 10 * time.Minute
+	t0 := 3*time.Second + time.Duration(1+r.Intn(900))*time.Millisecond
+	for at := t0; at < s.Duration; at += 40 * time.Second {
+		s.Ops = append(s.Ops, scen.Op{At: at, Kind: "alerts", Alerts: []scen.PostSpec{{Labels: model.Labels{"alertname": "A", "sev": "crit"}, EndOff: &end}}})
+	}
+	return s
+}
+
+func TestHangingSibling(t *testing.T) {
+	sub := vf.Cur().Sub("hanging-sibling", fmt.Sprintf(rule, "targeted: a receiver with two integrations, one hanging or failing for the whole run (every flush lasts the full pipeline time-out), group_interval 20-60 s, repeat_interval 2.5 group intervals; the healthy integration must get its repeats no later than repeat_interval plus one flush period"), 6)
+	if vf.RaceEnabled {
+		t.Skip("race pass: only the parallel-flush family")
+	}
+	sysrun.Run(t, "C04", sub, sysrun.Family{Name: "hang", Quick: 24, Thorough: 1000, NonTrivial: nt, Gen: hangingSibling}, checkers(0))
+}
+
+// subSecondFlushes: group_interval well below a second, new members joining every few hundred
+// milliseconds: several notifications of one group (and their log entries) fall into the same
+// wall-clock second. Each must be remembered, or the next flush repeats what was already delivered.
+func subSecondFlushes(r *rand.Rand) *scen.Scenario {
+	gw := 100 * time.Millisecond
+	gi := gen.Pick(r, []time.Duration{200 * time.Millisecond, 300 * time.Millisecond})
+	ri := time.Hour
+	gb := []string{"alertname"}
+	cfg := &scen.Config{ResolveTimeout: 5 * time.Minute,
+		Route:     &model.RouteSpec{Receiver: "r0", GroupBy: &gb, GroupWait: &gw, GroupInterval: &gi, RepeatInterval: &ri},
+		Receivers: []scen.Receiver{{Name: "r0", Integs: []scen.Integ{{SendResolved: true}}}}}
+	s := &scen.Scenario{Config: cfg, Duration: 40 * time.Second, Retention: 120 * time.Hour, MaintenanceInterval: 15 * time.Minute}
+	far := 10 * time.Minute
+	t0 := 2*time.Second + time.Duration(1+r.Intn(900))*time.Millisecond
+	for k := 0; k < 12; k++ {
+		at := t0 + time.Duration(k)*time.Duration(250+r.Intn(300))*time.Millisecond
+		s.Ops = append(s.Ops, scen.Op{At: at, Kind: "alerts", Alerts: []scen.PostSpec{{Labels: model.Labels{"alertname": "A", "instance": fmt.Sprint(k)}, EndOff: &far}}})
+	}
+	sort.SliceStable(s.Ops, func(i, j int) bool { return s.Ops[i].At < s.Ops[j].At })
+	return s
+}
+
+func TestSubSecondFlushes(t *testing.T) {
+	sub := vf.Cur().Sub("sub-second-flushes", fmt.Sprintf(rule, "targeted: group_interval 200-300 ms, twelve alerts joining one group 250-550 ms apart, so that several notifications (and log entries) of the group fall into one wall-clock second; afterwards 30 s without change: no notification may repeat a delivered state"), 8)
+	if vf.RaceEnabled {
+		t.Skip("race pass: only the parallel-flush family")
+	}
+	sysrun.Run(t, "C04", sub, sysrun.Family{Name: "subsec", Quick: 30, Thorough: 1500, NonTrivial: nt, Gen: subSecondFlushes}, checkers(0))
+}
